@@ -181,6 +181,7 @@ var errTable = []struct {
 	{accountant.ErrDagIsNotLoaded, "notLoaded"},
 	{accountant.ErrDagIsLoaded, "dagLoaded"},
 	{accountant.ErrGenesisRejected, "genesisRejected"},
+	{accountant.ErrSpiceIsNotCanonical, "notCanonical"},
 	{accountant.ErrTransferringFoundsFailure, "transferFailure"},
 	{accountant.ErrLeafRejected, "leafRejected"},
 	{accountant.ErrNewLeafRejected, "newLeafRejected"},
@@ -286,7 +287,7 @@ func (w *World) Genesis(n *Node, receiver string, supply spice.Melange) (account
 	if err == nil {
 		name = w.DefV(&v)
 	}
-	w.c.Line("GEN %d %s %d | %s | %s", n.id, w.A(receiver), name, errTag(err), w.Snap(n))
+	w.c.Line("GEN %d %s %d %d %d | %s | %s", n.id, w.A(receiver), supply.Currency, supply.SupplementaryCurrency, name, errTag(err), w.Snap(n))
 	w.after(n, "genesis", err)
 	return v, err
 }
